@@ -1,12 +1,14 @@
 """C01 -- mass is conserved at every node at every reported step (equations, adjacency, bookkeeping, demand clock)."""
 import ast
+import copy
 import re
 
 import sympy as sp
 
 from ..src import walk, calls, call_name, dotted, const, loc, unparse, norm, AnchorError, ExtractError, last_attr
-from ..symx import SymExec, Opaque, Constraint, CondExpr, State, is_zero
+from ..symx import SymExec, Opaque, Constraint, CondExpr, State, is_zero, rat
 from ..cfg import CFG
+from ..peval import Evaluator, Obj, Unknown, Raised, Returned
 from .. import builders as B
 
 CON = B.CONSTRAINT
@@ -31,85 +33,752 @@ ASSUMPTIONS = ["the compiled evaluator evaluates the registered expression (C15)
                "flows reported for links are the model's flow variables (store_results_in_network copies m.flow[name].value, checked)"]
 
 
-def sum_symbols(expr):
-    out = {}
-    for s in expr.free_symbols:
-        if s.name.startswith("SUM{"):
-            out[s] = s.name
+# ====================================================================================== shape-tolerant extraction helpers
+# The rules below decide facts about what the code computes.  Everything that depends on how the code is *written* (names of locals and
+# loop variables, statement vs expression conditionals, duplicated vs merged branches, comprehension vs loop) is normalised here.
+
+def _first_ifexp(expr):
+    """first conditional expression in evaluation position (not under a lambda / comprehension, which have their own scope)"""
+    todo = [expr]
+    while todo:
+        n = todo.pop(0)
+        if isinstance(n, (ast.Lambda, ast.ListComp, ast.SetComp, ast.DictComp, ast.GeneratorExp)):
+            continue
+        if isinstance(n, ast.IfExp):
+            return n
+        todo.extend(ast.iter_child_nodes(n))
+    return None
+
+
+def _subst_node(node, target, repl):
+    """copy of the expression `node` with the sub-expression `target` replaced (only the nodes on the way down are copied)"""
+    if node is target:
+        return repl
+    new = None
+    for field, val in ast.iter_fields(node):
+        if isinstance(val, ast.AST):
+            r = _subst_node(val, target, repl)
+            if r is not val:
+                new = new or copy.copy(node)
+                setattr(new, field, r)
+        elif isinstance(val, list):
+            lst = [_subst_node(x, target, repl) if isinstance(x, ast.AST) else x for x in val]
+            if any(a is not b for a, b in zip(lst, val)):
+                new = new or copy.copy(node)
+                setattr(new, field, lst)
+    return new if new is not None else node
+
+
+class SplitExec(SymExec):
+    """SymExec for which `S[a if c else b]` is the statement `if c: S[a]  else: S[b]`: a conditional expression splits the path exactly
+    like the if/else statement it abbreviates, so the rules see the same (condition, store) pairs for either spelling."""
+
+    def stmt(self, s, st):
+        if isinstance(s, (ast.Assign, ast.AugAssign, ast.AnnAssign, ast.Return, ast.Expr)) and getattr(s, "value", None) is not None:
+            hit = _first_ifexp(s.value)
+            if hit is not None:
+                a, b = copy.copy(s), copy.copy(s)
+                a.value = _subst_node(s.value, hit, hit.body)
+                b.value = _subst_node(s.value, hit, hit.orelse)
+                return self.branch(hit.test, [a], [b], st)
+        return SymExec.stmt(self, s, st)
+
+
+def facts(conds):
+    """path conditions [(text, bool)] -> {atom text: bool | None}.  Compound tests are decomposed (`not A`, `A and B` true, `A or B` false),
+    `A == False` / `A is False` / `A != True` read as `not A`, `A is None` as `not A` (and the mirror images); an atom forced both ways is None."""
+    out, clash = {}, set()
+
+    def put(txt, val):
+        if txt in out and out[txt] != val:
+            clash.add(txt)
+        out[txt] = val
+
+    def walk_(node, val):
+        if isinstance(node, ast.UnaryOp) and isinstance(node.op, ast.Not):
+            return walk_(node.operand, not val)
+        if isinstance(node, ast.BoolOp) and ((isinstance(node.op, ast.And) and val) or (isinstance(node.op, ast.Or) and not val)):
+            for v in node.values:
+                walk_(v, val)
+            return
+        if isinstance(node, ast.Compare) and len(node.ops) == 1 and isinstance(node.comparators[0], ast.Constant) \
+                and (node.comparators[0].value is None or isinstance(node.comparators[0].value, bool)) \
+                and isinstance(node.ops[0], (ast.Eq, ast.Is, ast.NotEq, ast.IsNot)):
+            eq = val if isinstance(node.ops[0], (ast.Eq, ast.Is)) else not val       # truth of `left == const`
+            return walk_(node.left, eq if node.comparators[0].value is True else not eq)
+        put(unparse(node), val)
+
+    for t, v in conds:
+        try:
+            node = ast.parse(t, mode="eval").body
+        except SyntaxError:
+            put(t, bool(v))
+            continue
+        walk_(node, bool(v))
+    for t in clash:
+        out[t] = None
     return out
 
 
-def split_balance(expr, dname):
-    """-> dict of coefficients for D, IN, OUT, LEAK and the remainder."""
+def fact(fx, suffix):
+    """value of the atom(s) whose text ends with suffix: True / False, None if absent or contradictory"""
+    vals = {v for t, v in fx.items() if t.endswith(suffix)}
+    return vals.pop() if len(vals) == 1 else None
+
+
+MODES = ("DD", "PDD", "PDA")
+
+
+def demand_modes(fx):
+    """set of demand models for which the path's tests on `...demand_model` hold (truth table over the three models), None if the path
+    does not test the demand model or a test cannot be evaluated"""
+    def lit(n, m):
+        if isinstance(n, ast.Constant):
+            return n.value
+        if isinstance(n, (ast.List, ast.Tuple, ast.Set)) and all(isinstance(x, ast.Constant) for x in n.elts):
+            return [x.value for x in n.elts]
+        if unparse(n).endswith("demand_model"):
+            return m
+        raise ValueError(unparse(n))
+
+    def ev(n, m):
+        if isinstance(n, ast.UnaryOp) and isinstance(n.op, ast.Not):
+            return not ev(n.operand, m)
+        if isinstance(n, ast.BoolOp):
+            vs = [ev(v, m) for v in n.values]
+            return all(vs) if isinstance(n.op, ast.And) else any(vs)
+        if isinstance(n, ast.Compare) and len(n.ops) == 1:
+            a, b, op = lit(n.left, m), lit(n.comparators[0], m), n.ops[0]
+            if isinstance(op, (ast.Eq, ast.Is)):
+                return a == b
+            if isinstance(op, (ast.NotEq, ast.IsNot)):
+                return a != b
+            if isinstance(op, ast.In):
+                return a in b
+            if isinstance(op, ast.NotIn):
+                return a not in b
+        raise ValueError(unparse(n))
+    live, used = set(MODES), False
+    for atom, val in fx.items():
+        if "demand_model" not in atom or val is None:
+            continue
+        try:
+            node = ast.parse(atom, mode="eval").body
+            live = {m for m in live if ev(node, m) == val}
+        except (SyntaxError, ValueError, TypeError):
+            return None
+        used = True
+    return live if used else None
+
+
+_SUM_RE = re.compile(r"^SUM\{(?P<elt>.*) : (?P<var>[A-Za-z_]\w*) in (?P<it>.*?)(?: if (?P<cond>.*))?\}$")
+
+
+def sum_parts(name):
+    """SUM{elt : v in iter [if cond]} -> (elt, iter, cond) with the bound variable v written `$k` (alpha-normal form), or None"""
+    m = _SUM_RE.match(name)
+    if not m:
+        return None
+    ren = lambda t: re.sub(r"(?<![\w.])%s\b" % re.escape(m.group("var")), "$k", t) if t else t
+    return ren(m.group("elt")), m.group("it"), ren(m.group("cond"))
+
+
+def links_iter(text):
+    """`<recv>.get_links_for_node(<node>[, flag])` -> (recv text, node text, FLAG) or None; the flag may be positional or a keyword"""
+    try:
+        n = ast.parse(text, mode="eval").body
+    except SyntaxError:
+        return None
+    if not (isinstance(n, ast.Call) and isinstance(n.func, ast.Attribute) and n.func.attr == "get_links_for_node"):
+        return None
+    args = list(n.args)
+    kw = {k.arg: k.value for k in n.keywords}
+    node = args[0] if args else kw.get("node_name")
+    flag = args[1] if len(args) > 1 else kw.get("flag")
+    fl = "ALL" if flag is None else (flag.value.upper() if isinstance(flag, ast.Constant) and isinstance(flag.value, str) else None)
+    if node is None or fl is None:
+        return None
+    return unparse(n.func.value), unparse(node), fl
+
+
+def flow_sums(expr, elts, recv, node):
+    """{symbol: (FLAG, sign)} for the SUM symbols of expr that add `elt` (one of elts, possibly negated) over <recv>.get_links_for_node(<node>, FLAG)"""
+    out = {}
+    for s in expr.free_symbols:
+        p = sum_parts(s.name)
+        if not p or p[2]:
+            continue
+        elt, sign = (p[0][1:], -1) if p[0].startswith("-") else (p[0], 1)
+        li = links_iter(p[1])
+        if elt in elts and li and li[0] == recv and li[1] == node:
+            out[s] = (li[2], sign)
+    return out
+
+
+def split_balance(expr, dname, key):
+    """-> dict of coefficients for D, IN, OUT, LEAK of the junction whose row is stored under `key`, and the remainder."""
     expr = sp.expand(expr)
     co = {"D": 0, "IN": 0, "OUT": 0, "LEAK": 0}
     rest = expr
+    sums = flow_sums(expr, ("m.flow[$k]",), "wn", key)
     for s in list(expr.free_symbols):
         c = expr.coeff(s)
-        role = None
-        if s.name == "m.%s[node_name]" % dname:
+        role, sign = None, 1
+        if s.name == "m.%s[%s]" % (dname, key):
             role = "D"
-        elif s.name == "m.leak_rate[node_name]":
+        elif s.name == "m.leak_rate[%s]" % key:
             role = "LEAK"
-        elif s.name.startswith("SUM{m.flow[link_name] : link_name in wn.get_links_for_node(node_name") and "'INLET'" in s.name:
-            role = "IN"
-        elif s.name.startswith("SUM{m.flow[link_name] : link_name in wn.get_links_for_node(node_name") and "'OUTLET'" in s.name:
-            role = "OUT"
+        elif s in sums and sums[s][0] in ("INLET", "OUTLET"):
+            role, sign = ("IN" if sums[s][0] == "INLET" else "OUT"), sums[s][1]
         if role:
-            co[role] += c
+            co[role] += c * sign
             rest = rest - c * s
     return co, sp.simplify(rest)
 
 
-def adjacency(repo):
-    """{flag: set of link end attributes the node is compared with}, and whether the link-type filter is applied."""
-    fn = repo.func(MODEL, "WaterNetworkModel.get_links_for_node")
+def loop_vars(st):
+    """{iteration text: tuple of loop variable names} of the element loops entered on a path"""
     out = {}
-    typed = {}
-    for n in walk(fn):
-        if isinstance(n, ast.If) and isinstance(n.test, ast.Compare) and "flag" in unparse(n.test.left):
-            flag = const(n.test.comparators[0])
-            rets = [s for s in n.body if isinstance(s, ast.Return)]
-            if not rets or not isinstance(rets[0].value, (ast.ListComp, ast.GeneratorExp)):
-                if rets and isinstance(rets[0].value, ast.Call) and rets[0].value.args and isinstance(rets[0].value.args[0], (ast.ListComp, ast.GeneratorExp)):
-                    comp = rets[0].value.args[0]
-                else:
-                    continue
+    for e in st.events:
+        if e[0] == "loop" and e[1] != "while":
+            out.setdefault(e[2], tuple(x.strip() for x in e[1].strip("()[] ").split(",")))
+    return out
+
+
+def resolve_local(fn, node):
+    """a Name bound exactly once in fn by a plain assignment stands for the assigned expression (def-use following of a temporary)"""
+    seen = 0
+    while isinstance(node, ast.Name) and seen < 5:
+        defs = [s for s in walk(fn) if isinstance(s, ast.Assign) and len(s.targets) == 1 and isinstance(s.targets[0], ast.Name) and s.targets[0].id == node.id]
+        others = [n for n in walk(fn) if isinstance(n, ast.Name) and n.id == node.id and isinstance(n.ctx, ast.Store)]
+        if len(defs) != 1 or len(others) != 1:
+            break
+        node = defs[0].value
+        seen += 1
+    return node
+
+
+# ------------------------------------------------------------------ concrete evaluation of small functions on a fixture
+class _Break(Exception):
+    pass
+
+
+class _Continue(Exception):
+    pass
+
+
+class Closure(object):
+    def __init__(self, node, env, defaults):
+        self.node, self.env, self.defaults = node, env, defaults
+
+
+class Conc(Evaluator):
+    """peval.Evaluator extended to the statement kinds small query functions use (loops, comprehensions, nested defs, containers, strings).
+    Control flow and containers are concrete (a fixture), numbers may be sympy terms: the result of an accumulation is then an exact formula
+    in the fixture's symbols, whatever way (loop, merged loops, comprehension, sum(), helper) the code is written.  Fixture objects are Obj
+    whose attributes may be python callables.  Anything not modelled raises Unknown (an analysis error, never a verdict)."""
+    BUDGET = 200000
+
+    def __init__(self, env=None, budget=None):
+        Evaluator.__init__(self, env)
+        self.budget = budget if budget is not None else [self.BUDGET]
+
+    def child(self, env):
+        return Conc(env, self.budget)
+
+    def ev(self, n):
+        self.budget[0] -= 1
+        if self.budget[0] < 0:
+            raise Unknown("evaluation budget exhausted")
+        return Evaluator.ev(self, n)
+
+    # -------------------------------------------------------- values
+    def truth(self, v):
+        if isinstance(v, sp.Basic) and not v.is_number:
+            raise Unknown("truth value of a symbolic term %s" % v)
+        return Evaluator.truth(self, v)
+
+    def iterate(self, v):
+        if isinstance(v, (list, tuple, str, range)):
+            return list(v)
+        if isinstance(v, dict):
+            return list(v.keys())
+        if isinstance(v, Obj) and "__iter__" in v.attrs:
+            return list(v.attrs["__iter__"])
+        raise Unknown("cannot iterate over %r" % (v,))
+
+    def binop(self, op, a, b, n):
+        if isinstance(a, sp.Basic) or isinstance(b, sp.Basic):
+            num = lambda v: isinstance(v, sp.Basic) or (isinstance(v, (int, float)) and not isinstance(v, bool))
+            if not (num(a) and num(b)):
+                raise Unknown("arithmetic on %r and %r" % (a, b))
+            x, y = (a if isinstance(a, sp.Basic) else rat(a)), (b if isinstance(b, sp.Basic) else rat(b))
+            if isinstance(op, ast.Add):
+                return x + y
+            if isinstance(op, ast.Sub):
+                return x - y
+            if isinstance(op, ast.Mult):
+                return x * y
+            if isinstance(op, ast.Div):
+                return x / y
+            if isinstance(op, ast.Pow):
+                return x ** y
+            raise Unknown("binary op %s on symbolic terms" % type(op).__name__)
+        if isinstance(op, ast.Add) and isinstance(a, (list, tuple)) and type(a) is type(b):
+            return a + b
+        if isinstance(op, ast.Mod) and isinstance(a, str):
+            try:
+                return a % (tuple(b) if isinstance(b, (list, tuple)) else b)
+            except (TypeError, ValueError) as e:
+                raise Unknown("string formatting: %s" % e)
+        return Evaluator.binop(self, op, a, b, n)
+
+    def e_Compare(self, n):
+        try:
+            return Evaluator.e_Compare(self, n)
+        except TypeError as e:
+            raise Unknown("comparison %s: %s" % (unparse(n), e))
+
+    def e_Name(self, n):
+        if n.id in self.env:
+            return self.env[n.id]
+        if n.id in ("True", "False", "None"):
+            return {"True": True, "False": False, "None": None}[n.id]
+        raise Unknown("unbound name %s" % n.id)
+
+    def e_Attribute(self, n):
+        base = self.ev(n.value)
+        if isinstance(base, Obj) and n.attr in base.attrs:
+            return base.attrs[n.attr]
+        raise Unknown("unknown attribute %s of %r" % (n.attr, base))
+
+    def e_Dict(self, n):
+        if any(k is None for k in n.keys):
+            raise Unknown("dict unpacking")
+        return {self.ev(k): self.ev(v) for k, v in zip(n.keys, n.values)}
+
+    def e_Subscript(self, n):
+        b = self.ev(n.value)
+        if isinstance(n.slice, ast.Slice):
+            lo, hi, stp = [self.ev(x) if x is not None else None for x in (n.slice.lower, n.slice.upper, n.slice.step)]
+            if isinstance(b, (list, tuple, str)):
+                return b[lo:hi:stp]
+            raise Unknown("slice of %r" % (b,))
+        k = self.ev(n.slice)
+        try:
+            if isinstance(b, (list, tuple, str, dict)):
+                return b[tuple(k) if isinstance(k, list) else k]
+        except (KeyError, IndexError, TypeError) as e:
+            raise Unknown("subscript %s: %r" % (unparse(n), e))
+        raise Unknown("subscript of %r" % (b,))
+
+    def e_JoinedStr(self, n):
+        out = []
+        for v in n.values:
+            if isinstance(v, ast.Constant):
+                out.append(str(v.value))
+            elif isinstance(v, ast.FormattedValue) and v.conversion == -1 and v.format_spec is None:
+                out.append(format(self.ev(v.value)))
             else:
-                comp = rets[0].value
-            conds = " and ".join(unparse(i) for g in comp.generators for i in g.ifs)
-            ends = set(re.findall(r"\.(start_node_name|end_node_name)", conds))
-            out[flag] = ends
-            typed[flag] = "link_type in link_types" in conds
-    return fn, out, typed
+                raise Unknown("f-string conversion / format spec")
+        return "".join(out)
+
+    def e_Lambda(self, n):
+        return Closure(n, self.env, [self.ev(d) for d in n.args.defaults])
+
+    def _comp(self, gens, emit):
+        sub = self.child(dict(self.env))
+
+        def rec(i):
+            if i == len(gens):
+                emit(sub)
+                return
+            for x in self.iterate(sub.ev(gens[i].iter)):
+                sub.assign(gens[i].target, x)
+                if all(sub.truth(sub.ev(c)) for c in gens[i].ifs):
+                    rec(i + 1)
+        rec(0)
+
+    def e_ListComp(self, n):
+        out = []
+        self._comp(n.generators, lambda sub: out.append(sub.ev(n.elt)))
+        return out
+
+    e_GeneratorExp = e_ListComp
+    e_SetComp = e_ListComp
+
+    def e_DictComp(self, n):
+        out = {}
+        self._comp(n.generators, lambda sub: out.__setitem__(sub.ev(n.key), sub.ev(n.value)))
+        return out
+
+    # -------------------------------------------------------- calls
+    def e_Call(self, n):
+        args = []
+        for a in n.args:
+            if isinstance(a, ast.Starred):
+                args.extend(self.iterate(self.ev(a.value)))
+            else:
+                args.append(self.ev(a))
+        if any(k.arg is None for k in n.keywords):
+            raise Unknown("** arguments")
+        kwargs = {k.arg: self.ev(k.value) for k in n.keywords}
+        f = n.func
+        if isinstance(f, ast.Name) and f.id not in self.env:
+            return self.builtin(f.id, args, kwargs, n)
+        if isinstance(f, ast.Attribute):
+            base = self.ev(f.value)
+            if not (isinstance(base, Obj) and f.attr in base.attrs):
+                return self.method(base, f.attr, args, kwargs, n)
+            fv = base.attrs[f.attr]
+        else:
+            fv = self.ev(f)
+        return self.apply(fv, args, kwargs, n)
+
+    def apply(self, fv, args, kwargs, n):
+        if isinstance(fv, Closure):
+            a = fv.node.args
+            if a.vararg or a.kwarg or a.posonlyargs or a.kwonlyargs:
+                raise Unknown("signature of %s" % unparse(n))
+            params = [x.arg for x in a.args]
+            if len(args) > len(params) or any(k not in params for k in kwargs):
+                raise Unknown("arguments of %s" % unparse(n))
+            bound = dict(zip(params[len(params) - len(fv.defaults):], fv.defaults))
+            bound.update(zip(params, args))
+            bound.update(kwargs)
+            if any(p not in bound for p in params):
+                raise Unknown("missing arguments in %s" % unparse(n))
+            env = dict(fv.env)              # free names are looked up when the function is called, as python does
+            env.update(bound)
+            sub = self.child(env)
+            if isinstance(fv.node, ast.Lambda):
+                return sub.ev(fv.node.body)
+            return sub.run(fv.node.body)
+        if callable(fv):
+            return fv(*args, **kwargs)
+        raise Unknown("call of %r" % (fv,))
+
+    def builtin(self, name, args, kwargs, n):
+        if kwargs and name not in ("sorted", "sum"):
+            raise Unknown("call %s not modelled" % unparse(n))
+        if name == "sum" and 1 <= len(args) <= 2:
+            tot = args[1] if len(args) > 1 else kwargs.get("start", 0)
+            for x in self.iterate(args[0]):
+                tot = self.binop(ast.Add(), tot, x, n)
+            return tot
+        if name == "len" and len(args) == 1:
+            return len(self.iterate(args[0]))
+        if name in ("list", "tuple", "set", "frozenset", "sorted") and len(args) <= 1:
+            items = self.iterate(args[0]) if args else []
+            if name in ("set", "frozenset"):
+                out = []
+                for x in items:
+                    if not any(x == y for y in out):
+                        out.append(x)
+                return out
+            if name == "sorted":
+                if kwargs:
+                    raise Unknown("sorted with key")
+                return sorted(items)
+            return tuple(items) if name == "tuple" else list(items)
+        if name in ("any", "all") and len(args) == 1:
+            return (any if name == "any" else all)(self.truth(x) for x in self.iterate(args[0]))
+        if name == "range" and all(isinstance(a, int) for a in args):
+            return list(range(*args))
+        if name == "enumerate" and len(args) == 1:
+            return [(i, x) for i, x in enumerate(self.iterate(args[0]))]
+        if name == "zip":
+            return [tuple(t) for t in zip(*[self.iterate(a) for a in args])]
+        if name == "bool" and len(args) == 1:
+            return self.truth(args[0])
+        if name == "str" and len(args) == 1 and isinstance(args[0], (str, int, float, bool, type(None))):
+            return str(args[0])
+        if name in ("float", "int", "abs") and len(args) == 1:
+            if isinstance(args[0], sp.Basic):
+                if name == "float":
+                    return args[0]
+                raise Unknown("%s of a symbolic term" % name)
+            if isinstance(args[0], (int, float, str)) and not isinstance(args[0], bool):
+                try:
+                    return {"float": float, "int": int, "abs": abs}[name](args[0])
+                except (TypeError, ValueError) as e:
+                    raise Unknown(str(e))
+        if name == "isinstance" and len(args) == 2 and isinstance(args[0], Obj) and args[0].cls is not None:
+            cl = args[1] if isinstance(args[1], (list, tuple)) else [args[1]]
+            return any(getattr(c, "name", c) == args[0].cls for c in cl)
+        raise Unknown("call %s not modelled" % unparse(n))
+
+    def method(self, base, attr, args, kwargs, n):
+        try:
+            if isinstance(base, str) and attr in ("upper", "lower", "strip", "format", "startswith", "endswith", "join", "split", "replace", "capitalize", "casefold"):
+                if attr == "join":
+                    return base.join(self.iterate(args[0]))
+                return getattr(base, attr)(*args, **kwargs)
+            if isinstance(base, list) and attr in ("append", "extend", "insert", "copy", "index", "count", "pop") and not kwargs:
+                if attr == "extend":
+                    return base.extend(self.iterate(args[0]))
+                return getattr(base, attr)(*args)
+            if isinstance(base, dict) and attr in ("get", "items", "keys", "values", "setdefault") and not kwargs:
+                r = getattr(base, attr)(*args)
+                return [tuple(x) if attr == "items" else x for x in r] if attr in ("items", "keys", "values") else r
+        except (TypeError, ValueError, KeyError, IndexError) as e:
+            raise Unknown("%s: %r" % (unparse(n), e))
+        raise Unknown("method %s of %r not modelled" % (attr, base))
+
+    # -------------------------------------------------------- statements
+    def stmt(self, s):
+        if isinstance(s, ast.For):
+            for x in self.iterate(self.ev(s.iter)):
+                self.assign(s.target, x)
+                try:
+                    self.block(s.body)
+                except _Continue:
+                    continue
+                except _Break:
+                    break
+            else:
+                self.block(s.orelse)
+            return
+        if isinstance(s, ast.Break):
+            raise _Break()
+        if isinstance(s, ast.Continue):
+            raise _Continue()
+        if isinstance(s, ast.FunctionDef):
+            if s.decorator_list:
+                raise Unknown("decorated nested function %s" % s.name)
+            self.env[s.name] = Closure(s, self.env, [self.ev(d) for d in s.args.defaults])
+            return
+        if isinstance(s, ast.AnnAssign):
+            if s.value is not None:
+                self.assign(s.target, self.ev(s.value))
+            return
+        if isinstance(s, ast.Assert):
+            return
+        return Evaluator.stmt(self, s)
+
+    def assign(self, t, v):
+        if isinstance(t, ast.Subscript):
+            base = self.ev(t.value)
+            k = self.ev(t.slice)
+            if isinstance(base, dict) or (isinstance(base, list) and isinstance(k, int)):
+                try:
+                    base[tuple(k) if isinstance(k, list) else k] = v
+                except (IndexError, TypeError) as e:
+                    raise Unknown(str(e))
+                return
+            raise Unknown("unsupported assignment target %s" % unparse(t))
+        if isinstance(t, ast.Starred):
+            raise Unknown("starred assignment")
+        return Evaluator.assign(self, t, v)
+
+
+def call_concrete(fn, bound):
+    """evaluate the FunctionDef fn on the fixture `bound` (parameter name -> value; parameters left out take their literal default).
+    -> ("value", v) | ("raises", text); Unknown propagates (analysis error)."""
+    a = fn.args
+    params = [x.arg for x in a.args]
+    env = {}
+    for p, d in zip(params[len(params) - len(a.defaults):], a.defaults):
+        env[p] = Conc().ev(d)
+    env.update(bound)
+    missing = [p for p in params if p not in env]
+    if missing or a.vararg or a.kwarg:
+        raise ExtractError("%s: parameters %s are not part of the modelled interface" % (fn.name, missing or "*args/**kwargs"))
+    try:
+        return "value", Conc(env).run(fn.body)
+    except Raised as r:
+        return "raises", unparse(r.node)
+    except (_Break, _Continue):
+        raise ExtractError("%s: break/continue outside a loop" % fn.name)
+    except RecursionError:
+        raise ExtractError("%s: recursion too deep for the concrete evaluator" % fn.name)
+
+
+# fixture network for get_links_for_node: parallel links, a link drawn the other way round, a pump and valves, a self loop, a node that is
+# only used by non-link objects, a node nothing uses.  link name -> (usage type, start node, end node)
+FIX_LINKS = {"P1": ("Pipe", "A", "B"), "P2": ("Pipe", "B", "A"), "P3": ("Pipe", "A", "B"), "PU": ("Pump", "C", "A"), "V1": ("Valve", "A", "D"),
+             "P4": ("Pipe", "B", "C"), "V2": ("Valve", "D", "C"), "P5": ("Pipe", "D", "D")}
+FIX_NODES = ("A", "B", "C", "D", "F", "G")
+
+
+def adjacency(repo):
+    """get_links_for_node evaluated on the fixture for every node and flag.
+    -> fn, {flag: set of link-end attributes the result selects on (empty set: none of start / end / either)}, {flag: only link-typed usages kept},
+       {flag: text of the first disagreement}"""
+    fn = repo.func(MODEL, "WaterNetworkModel.get_links_for_node")
+    usage = {}
+    for nd in FIX_NODES[:5]:
+        recs = [(l, t) for l, (t, s, e) in FIX_LINKS.items() if nd in (s, e)]
+        # the registry also lists non-link users of a node; they sit between the link records
+        recs.insert(len(recs) // 2, ("S-" + nd, "Source"))
+        recs.append(("C-" + nd, "Control"))
+        usage[nd] = recs
+
+    def node_obj(nm):
+        return Obj("node:" + nm, {"name": nm}, cls="Junction")
+
+    def get_link(name):
+        if name in FIX_LINKS:
+            t, s, e = FIX_LINKS[name]
+        else:
+            # a non-link user looked up as a link: made to look attached at both ends, so that a missing type filter shows in the result
+            t, s, e = "Source", name[2:], name[2:]
+        return Obj("link:" + name, {"name": name, "link_type": t, "start_node_name": s, "end_node_name": e, "start_node": node_obj(s), "end_node": node_obj(e)}, cls=t)
+
+    def make_self():
+        reg = Obj("node_reg", {"get_usage": lambda nm: (list(usage[nm]) if nm in usage else None)})
+        return Obj("self", {"_node_reg": reg, "get_link": get_link, "_link_reg": {l: get_link(l) for l in FIX_LINKS},
+                            "link_name_list": list(FIX_LINKS)})
+    logger = Obj("logger", {k: (lambda *a, **k_: None) for k in ("error", "warning", "info", "debug", "critical")})
+    want = {"start_node_name": lambda nd: sorted(l for l, (t, s, e) in FIX_LINKS.items() if s == nd),
+            "end_node_name": lambda nd: sorted(l for l, (t, s, e) in FIX_LINKS.items() if e == nd),
+            "both": lambda nd: sorted(l for l, (t, s, e) in FIX_LINKS.items() if nd in (s, e))}
+    adj, typed, why = {}, {}, {}
+    for flag in ("ALL", "INLET", "OUTLET", None):
+        res = {}
+        for nd in FIX_NODES:
+            bound = {"self": make_self(), "node_name": nd, "logger": logger}
+            if flag is not None:
+                bound["flag"] = flag
+            kind, val = call_concrete(fn, bound)
+            if kind != "value" or not isinstance(val, (list, tuple)) or not all(isinstance(x, str) for x in val):
+                res = None
+                why[flag] = "get_links_for_node(%r, %r) -> %s %r" % (nd, flag, kind, val)
+                break
+            res[nd] = list(val)
+        if res is None:
+            continue
+        typed[flag] = all(x in FIX_LINKS for v in res.values() for x in v)
+        links_only = {nd: sorted(x for x in v if x in FIX_LINKS) for nd, v in res.items()}
+        sel = [k for k, f in want.items() if all(links_only[nd] == f(nd) for nd in FIX_NODES)]
+        adj[flag] = {"start_node_name", "end_node_name"} if sel == ["both"] else set(sel)
+        if not sel:
+            bad_nd = [nd for nd in FIX_NODES if links_only[nd] not in [f(nd) for f in want.values()]] or list(FIX_NODES)
+            why[flag] = "node %s of the fixture %s: got %s" % (bad_nd[0], {l: v[1:] for l, v in FIX_LINKS.items() if bad_nd[0] in v[1:]}, res[bad_nd[0]])
+        elif not typed[flag]:
+            why[flag] = "non-link users returned: %s" % sorted(x for v in res.values() for x in v if x not in FIX_LINKS)
+    return fn, adj, typed, why
+
+
+def demands_at_table(repo):
+    """Demands.at evaluated on a fixture list of six entries (categories None / 'ind' / '' / None / 'ind' / 'res') whose .at(t) are the
+    symbols d_i(t); time and multiplier are the symbols T and M.  -> fn, [(label, selected entry indices, multiplier term, result | error text)]"""
+    fn = repo.func(ELEM, "Demands.at")
+    cats = [None, "ind", "", None, "ind", "res"]
+    T, M = sp.Symbol("T"), sp.Symbol("M")
+    dsym = lambda i, t: sp.Symbol("d%d(%s)" % (i, t))
+
+    def make_self():
+        dems = [Obj("dem%d" % i, {"category": c, "at": (lambda t, i=i: dsym(i, t))}) for i, c in enumerate(cats)]
+        return Obj("self", {"_list": dems, "__iter__": dems})
+    rows = []
+    allx = list(range(len(cats)))
+    for label, cat, mult in (("all", "omitted", M), ("all", None, M), ("all", "", M), ("category", "ind", M), ("category", "res", M), ("category", "nope", M),
+                             ("default-multiplier", None, "omitted"), ("default-multiplier", "ind", "omitted")):
+        bound = {"self": make_self(), "time": T}
+        if cat != "omitted":
+            bound["category"] = cat
+        if not isinstance(mult, str):
+            bound["multiplier"] = mult
+        sel = allx if not cat or cat == "omitted" else [i for i in allx if cats[i] == cat]
+        mterm = sp.Integer(1) if isinstance(mult, str) else mult
+        kind, val = call_concrete(fn, bound)
+        want = sum((dsym(i, T) * mterm for i in sel), sp.Integer(0))
+        try:
+            ok = kind == "value" and val is not None and not isinstance(val, (bool, str, list, tuple, dict, Obj)) and sp.expand(sp.sympify(rat(val) if isinstance(val, float) else val) - want) == 0
+        except (sp.SympifyError, TypeError):
+            ok = False
+        rows.append((label, "category=%r multiplier=%s" % (cat, mult), ok, str(want), "%s %s" % (kind, val)))
+    return fn, rows
+
+
+def graph_entries(repo, ig):
+    """values handed to the sparse-matrix constructor in _initialize_internal_graph for ONE link of the element loop, per path:
+    -> [(closed: True / False / None, data entries, [(row, col)], path label)].  closed is what the path's tests force on `status == Closed`."""
+    cap = []
+
+    def hook(name, n, args, kwargs, st, ex, recv):
+        last = (name or "").split(".")[-1]
+        if last in ("array", "asarray") and args and isinstance(args[0], (list, tuple)):
+            return args[0]          # np.array(list) keeps the entries
+        if last in ("csr_matrix", "coo_matrix", "csc_matrix"):
+            cap.append((args, kwargs, list(st.conds), st.label()))
+        return NotImplemented
+    ex = SplitExec(call_hook=hook)
+    ex.run(ig)
+    out = []
+    for args, kwargs, conds, label in cap:
+        a0 = args[0] if args else kwargs.get("arg1")
+        try:
+            data, (rows, cols) = a0
+            data, rows, cols = list(data), list(rows), list(cols)
+        except (TypeError, ValueError):
+            raise ExtractError("_initialize_internal_graph: sparse matrix is not built from (data, (rows, cols)) lists: %r" % (a0,))
+        fx = facts(conds)
+        closed = set()
+        for t, v in fx.items():
+            m = re.match(r"^(\S+)\.status (==|!=|is|is not) (?:[\w.]+\.)?LinkStatus\.Closed$", t)
+            if m and v is not None:
+                closed.add(v if m.group(2) in ("==", "is") else not v)
+        txt = lambda v: v.text if isinstance(v, Opaque) else str(v)
+        out.append((closed.pop() if len(closed) == 1 else None, data, list(zip(map(txt, rows), map(txt, cols))), label))
+    return out
+
+
+def pair_rule(ig, chk, rule):
+    """the links of a node pair joined by several links are collected regardless of their direction"""
+    coll = [n for n in walk(ig) if isinstance(n, ast.For) and isinstance(resolve_local(ig, n.iter), ast.Call) and last_attr(resolve_local(ig, n.iter)) == "get_links_for_node"
+            and any(last_attr(c) == "append" for c in calls(n))]
+    if not coll:
+        raise ExtractError("_initialize_internal_graph: collection of the links of a multi-link node pair not found")
+    lp = coll[0]
+    li = links_iter(unparse(resolve_local(ig, lp.iter)))
+    flag_all = li is not None and li[2] == "ALL"
+    memb = [n for n in walk(lp) if isinstance(n, ast.If) and any(last_attr(c) == "append" for c in calls(ast.Module(body=n.body, type_ignores=[])))]
+    both = False
+    if memb:
+        t = resolve_local(ig, memb[0].test)
+        txt = unparse(t)
+        both = (isinstance(t, ast.BoolOp) and isinstance(t.op, ast.Or) and "start_node_name" in txt and "end_node_name" in txt) or \
+               (isinstance(t, ast.Compare) and len(t.ops) == 1 and isinstance(t.ops[0], ast.In) and "start_node_name" in unparse(t.comparators[0]) and "end_node_name" in unparse(t.comparators[0]))
+    chk.expect(flag_all and both, rule, "the links of a node pair joined by several links are collected in both directions (a->b and b->a)", loc(ig, lp),
+               "a parallel link drawn the other way round must share the pair's graph entry: if it is left out, closing its twin marks the pair disconnected although "
+               "the reversed link is open, and connected junctions behind it are reported with zero demand", expected="get_links_for_node(node) [ALL] and start == other or end == other",
+               found="flag=%r test=%s" % (li[2] if li else None, unparse(memb[0].test) if memb else None))
 
 
 def run(repo, chk):
     # ---------------------------------------------------------------- R-C01-1 balance rows
     sig_mb = {}
     for bname, dname, dictname in (("mass_balance_constraint", "expected_demand", "mass_balance"), ("pdd_mass_balance_constraint", "demand", "pdd_mass_balance")):
-        fn, paths, ex = B.run_builder(repo, CON, bname + ".build")
+        fn = repo.func(CON, bname + ".build")
+        ex = SplitExec(inline=B.inline_table(repo), test_hook=B.std_test_hook)
+        outs = ex.run(fn)
+        if not outs:
+            raise ExtractError("%s.build: no paths" % bname)
+        paths = [B.Path(o) for o in outs]
         chk.fn(fn)
         loops = [e for e in paths[0].st.events if e[0] == "loop"]
         main = loops[0] if loops else None
         chk.expect(main is not None and main[2] == "wn.junction_name_list", "R-C01-1", "%s: default index set is every junction" % bname, loc(fn),
                    expected="wn.junction_name_list", found=main[2] if main else None)
+        key = main[1] if main else "node_name"          # the loop variable: name of the junction the row belongs to
         for p in paths:
-            iso = [v for t, v in p.conds if t.endswith("._is_isolated")]
-            leak = [v for t, v in p.conds if t.endswith(".leak_status")]
+            fx = facts(p.conds)
+            iso, leak = fact(fx, "._is_isolated"), fact(fx, ".leak_status")
             st = p.stores("m.%s[" % dictname)
-            if iso and iso[0]:
+            if iso:
                 chk.expect(not st, "R-C01-1", "%s: isolated junction gets no balance row" % bname, loc(fn), found=[s[0] for s in st])
                 continue
-            if not iso:
+            if iso is None:
                 chk.bad("R-C01-1", "%s: balance row is guarded by the isolated test" % bname, loc(fn), found=p.label)
-            ok_key = len(st) == 1 and st[0][0] == "m.%s[node_name]" % dictname and isinstance(st[0][1], Constraint) and not isinstance(st[0][1].expr, CondExpr)
+            ok_key = len(st) == 1 and st[0][0] == "m.%s[%s]" % (dictname, key) and isinstance(st[0][1], Constraint) and not isinstance(st[0][1].expr, CondExpr)
             if not ok_key:
                 chk.bad("R-C01-1", "%s: one row per connected junction under the junction's name" % bname, loc(fn), found=[s[0] for s in st])
                 continue
             e = ex.S(st[0][1].expr)
-            co, rest = split_balance(e, dname)
-            has_leak = bool(leak and leak[0])
+            co, rest = split_balance(e, dname, key)
+            has_leak = bool(leak)
             cD = co["D"]
             tag = "%s [leak %s]" % (bname, "on" if has_leak else "off")
             good = cD != 0 and rest == 0 and co["IN"] == -cD and co["OUT"] == cD and co["LEAK"] == (cD if has_leak else 0)
@@ -119,111 +788,148 @@ def run(repo, chk):
             if cD != 0:
                 sig_mb.setdefault(bname, set()).add(sp.sign(-co["IN"] / cD) if co["IN"] != 0 else 0)
             chk.sample({"rule": "R-C01-1", "builder": bname, "leak": has_leak, "row": str(e)})
-            if not leak:
+            if leak is None:
                 chk.bad("R-C01-1", "%s: leak term is guarded by leak_status" % bname, loc(fn), found=p.label)
         B.check_updaters(chk, "R-C01-1", fn, bname, paths, {"leak_status", "_is_isolated"}, loc(fn))
     chk.floor("R-C01-1", 2 * 5)
 
     # ---------------------------------------------------------------- R-C01-2 adjacency
-    gfn, adj, typed = adjacency(repo)
+    # get_links_for_node is evaluated on a fixture network (concrete registry, concrete links): what it returns decides, not how it is written
+    gfn, adj, typed, why = adjacency(repo)
     chk.fn(gfn)
     want = {"ALL": {"start_node_name", "end_node_name"}, "INLET": {"end_node_name"}, "OUTLET": {"start_node_name"}}
     for flag in ("ALL", "INLET", "OUTLET"):
         if flag not in adj:
-            chk.bad("R-C01-2", "get_links_for_node handles flag %s" % flag, loc(gfn), found=sorted(adj))
+            chk.bad("R-C01-2", "get_links_for_node handles flag %s" % flag, loc(gfn), found=why.get(flag, sorted(k for k in adj if k)))
             continue
-        chk.expect(typed.get(flag), "R-C01-2", "get_links_for_node(%s) keeps only link-typed usages" % flag, loc(gfn))
+        chk.expect(typed.get(flag), "R-C01-2", "get_links_for_node(%s) keeps only link-typed usages" % flag, loc(gfn), found=why.get(flag))
     consistent = adj.get("INLET") and adj.get("OUTLET") and len(adj["INLET"]) == 1 and len(adj["OUTLET"]) == 1 and adj["INLET"] != adj["OUTLET"] \
         and adj.get("ALL") == {"start_node_name", "end_node_name"}
-    chk.expect(bool(consistent), "R-C01-2", "INLET and OUTLET select opposite ends and ALL both", loc(gfn), expected=want, found=adj)
+    chk.expect(bool(consistent), "R-C01-2", "INLET and OUTLET select opposite ends and ALL both", loc(gfn), expected=want,
+               found="%s %s" % ({k: sorted(v) for k, v in adj.items() if k}, "; ".join("%s: %s" % (k, v) for k, v in why.items() if k)))
+    chk.expect(None in adj and adj[None] == adj.get("ALL") and typed.get(None) == typed.get("ALL"), "R-C01-2", "get_links_for_node without a flag means ALL", loc(gfn),
+               "callers that want every link of a node (parallel-link table of the isolation graph) leave the flag out", found=why.get(None, adj.get(None)))
     sig_adj = 1 if adj.get("INLET") == {"end_node_name"} else (-1 if adj.get("INLET") == {"start_node_name"} else 0)
-    chk.sample({"rule": "R-C01-2", "adjacency": {k: sorted(v) for k, v in adj.items()}})
+    chk.sample({"rule": "R-C01-2", "adjacency": {str(k): sorted(v) for k, v in adj.items()}})
 
     # ---------------------------------------------------------------- R-C01-4 tank / reservoir demand, leak demand, flow copy
     sfn = repo.func(HYD, "store_results_in_network")
     chk.fn(sfn)
-    ex = SymExec()
+    ex = SplitExec()
     outs = ex.run(sfn)
     sig_tank = set()
     seen = {"tank": 0, "res": 0, "jd": set(), "flow": 0, "leakT": 0, "leakJ": 0}
+    val_text = lambda v: v.text if isinstance(v, Opaque) else v
     for o in outs:
+        lv = loop_vars(o)
+        fx = facts(o.conds)
+        last = {}                         # (ctx, target) -> value of the latest earlier store on this path
+        final = {}                        # (ctx, target) -> value of the last store on this path
+        for e in o.events:
+            if e[0] == "store":
+                final[((e[4][-1] if len(e) > 4 and e[4] else ""), e[1])] = e[2]
         for e in o.events:
             if e[0] != "store":
                 continue
             loops = e[4] if len(e) > 4 else ()
             ctx = loops[-1] if loops else ""
-            if e[1] == "node._demand" and ctx in ("wn.tanks()", "wn.reservoirs()"):
+            prev = dict(last)
+            last[(ctx, e[1])] = e[2]
+            if len(lv.get(ctx, ())) != 2:
+                continue
+            nm, ob = lv[ctx]              # `for <name>, <element> in wn.<kind>()`
+            if not e[1].startswith(ob + "."):
+                continue
+            attr = e[1][len(ob) + 1:]
+            if attr == "_demand" and ctx in ("wn.tanks()", "wn.reservoirs()"):
+                istank = ctx == "wn.tanks()"
                 v = sp.expand(ex.S(e[2]))
-                sin = [s for s in v.free_symbols if s.name.startswith("SUM{") and "'INLET'" in s.name and ".flow" in s.name and "get_links_for_node(name" in s.name]
-                sout = [s for s in v.free_symbols if s.name.startswith("SUM{") and "'OUTLET'" in s.name and ".flow" in s.name and "get_links_for_node(name" in s.name]
-                leak = [s for s in v.free_symbols if s.name == "node._leak_demand"]
+                sums = flow_sums(v, ("wn.get_link($k).flow", "wn.get_link($k)._flow"), "wn", nm)
+                sin = [s for s, (fl, sg) in sums.items() if fl == "INLET"]
+                sout = [s for s, (fl, sg) in sums.items() if fl == "OUTLET"]
                 okv = len(sin) == 1 and len(sout) == 1
                 if okv:
-                    ci, co_ = v.coeff(sin[0]), v.coeff(sout[0])
-                    cl = v.coeff(leak[0]) if leak else 0
-                    rest = sp.simplify(v - ci * sin[0] - co_ * sout[0] - (cl * leak[0] if leak else 0))
-                    istank = ctx == "wn.tanks()"
-                    okv = ci == 1 and co_ == -1 and rest == 0 and (cl == -1 if istank else cl == 0)
-                    sig_tank.add(int(ci))
+                    ci, co_ = v.coeff(sin[0]) * sums[sin[0]][1], v.coeff(sout[0]) * sums[sout[0]][1]
+                    rest = v - v.coeff(sin[0]) * sin[0] - v.coeff(sout[0]) * sout[0]
+                    # the leak that is subtracted: either the element's _leak_demand field is read back (then it must have been stored earlier on
+                    # this pass) or the value that is stored there on this pass is subtracted directly
+                    lsym = ex.sym(ob + "._leak_demand")
+                    okl = True
+                    if rest.has(lsym):
+                        lprev = prev.get((ctx, ob + "._leak_demand"))
+                        okl = lprev is not None
+                        rest = rest.xreplace({lsym: ex.S(lprev)}) if okl else rest
+                    lfin = final.get((ctx, ob + "._leak_demand"))
+                    try:
+                        lval = ex.S(lfin) if lfin is not None else None
+                    except ExtractError:
+                        lval = None
+                    if istank:
+                        okrest = lval is not None and is_zero(rest + lval)
+                    else:
+                        okrest = is_zero(rest)
+                    okv = ci == 1 and co_ == -1 and okl and okrest
+                    sig_tank.add(int(ci) if ci in (1, -1) else 0)
                     seen["tank" if istank else "res"] += 1
-                chk.expect(bool(okv), "R-C01-4", "%s demand = sum(inlet flows) - sum(outlet flows)%s" % ("tank" if ctx == "wn.tanks()" else "reservoir", " - leak" if ctx == "wn.tanks()" else ""),
-                           loc(sfn, None), "reported demand of a tank/reservoir is its net inflow", found=str(v))
-                if okv and "link_name).flow" not in sin[0].name:
-                    chk.bad("R-C01-4", "tank/reservoir net inflow is summed over link.flow", loc(sfn), found=sin[0].name)
-            if e[1] == "node._leak_demand" and ctx in ("wn.tanks()", "wn.junctions()"):
-                ls = [v for t, v in o.conds if t == "node.leak_status"]
-                iso = [v for t, v in o.conds if t == "node._is_isolated"]
-                if ctx == "wn.junctions()" and iso and iso[0]:
+                chk.expect(bool(okv), "R-C01-4", "%s demand = sum(inlet flows) - sum(outlet flows)%s" % ("tank" if istank else "reservoir", " - leak" if istank else ""),
+                           loc(sfn, None), "reported demand of a tank/reservoir is its net inflow (link.flow of the links that end at it minus of those that start at it), less the tank's own leak demand",
+                           found=str(v))
+            if attr == "_leak_demand" and ctx in ("wn.tanks()", "wn.junctions()"):
+                ls = fx.get(ob + ".leak_status")
+                iso = fx.get(ob + "._is_isolated")
+                if ctx == "wn.junctions()" and iso:
                     continue
-                if ls:
-                    val = e[2]
-                    want_ = "m.leak_rate[name].value" if ls[0] else 0
-                    got = val.text if isinstance(val, Opaque) else val
-                    chk.expect(got == want_, "R-C01-4", "%s leak demand is the leak-rate variable iff the leak is active [%s]" % ("tank" if ctx == "wn.tanks()" else "junction", "active" if ls[0] else "inactive"),
+                if ls is not None:
+                    want_ = "m.leak_rate[%s].value" % nm if ls else 0
+                    got = val_text(e[2])
+                    chk.expect(got == want_, "R-C01-4", "%s leak demand is the leak-rate variable iff the leak is active [%s]" % ("tank" if ctx == "wn.tanks()" else "junction", "active" if ls else "inactive"),
                                loc(sfn), expected=want_, found=got)
                     seen["leakT" if ctx == "wn.tanks()" else "leakJ"] += 1
-            if e[1] == "node._demand" and ctx == "wn.junctions()":
-                iso = [v for t, v in o.conds if t == "node._is_isolated"]
-                if iso and iso[0]:
+            if attr == "_demand" and ctx == "wn.junctions()":
+                if fx.get(ob + "._is_isolated"):
                     continue
-                pdd = [v for t, v in o.conds if "demand_model" in t and "PDD" in t]
-                got = e[2].text if isinstance(e[2], Opaque) else e[2]
-                if pdd:
-                    want_ = "m.demand[name].value" if pdd[0] else "m.expected_demand[name].value"
-                    chk.expect(got == want_, "R-C01-5d", "junction delivered demand is copied from %s in %s mode" % (want_, "PDD" if pdd[0] else "DD"), loc(sfn), expected=want_, found=got)
-                    seen["jd"].add(bool(pdd[0]))
-            if e[1] == "link._flow" and ctx == "wn.links()":
-                iso = [v for t, v in o.conds if t == "link._is_isolated"]
-                if iso and not iso[0]:
-                    got = e[2].text if isinstance(e[2], Opaque) else e[2]
-                    chk.expect(got == "m.flow[name].value", "R-C01-4", "link flow is copied from the flow variable of the same name", loc(sfn), found=got)
+                modes = demand_modes(fx)
+                got = val_text(e[2])
+                for md in sorted(modes or ()):
+                    pdd = md != "DD"
+                    want_ = ("m.demand[%s].value" if pdd else "m.expected_demand[%s].value") % nm
+                    chk.expect(got == want_, "R-C01-5d", "junction delivered demand is copied from %s in %s mode" % (want_.replace("[%s]" % nm, "[name]"), "PDD" if pdd else "DD"), loc(sfn),
+                               expected=want_, found=got)
+                    seen["jd"].add(md)
+            if attr == "_flow" and ctx == "wn.links()":
+                if fx.get(ob + "._is_isolated") is False:
+                    got = val_text(e[2])
+                    want_ = "m.flow[%s].value" % nm
+                    chk.expect(got == want_, "R-C01-4", "link flow is copied from the flow variable of the same name", loc(sfn), expected=want_, found=got)
                     seen["flow"] += 1
-    chk.expect(seen["tank"] >= 1 and seen["res"] >= 1 and seen["jd"] == {True, False} and seen["flow"] >= 1 and seen["leakT"] >= 2 and seen["leakJ"] >= 2,
+    chk.expect(seen["tank"] >= 1 and seen["res"] >= 1 and seen["jd"] == set(MODES) and seen["flow"] >= 1 and seen["leakT"] >= 2 and seen["leakJ"] >= 2,
                "R-C01-4", "store_results_in_network: all bookkeeping stores located", loc(sfn), found={k: (sorted(v) if isinstance(v, set) else v) for k, v in seen.items()})
 
     # public properties read by save_results are the fields written above
     for cls, prop, field in (("Node", "demand", "_demand"), ("Node", "leak_demand", "_leak_demand"), ("Link", "flow", "_flow"), ("Node", "head", "_head")):
         f = repo.func(BASE, "%s.%s" % (cls, prop), kind="getter")
         rets = [s for s in walk(f) if isinstance(s, ast.Return)]
-        chk.expect(len(rets) == 1 and dotted(rets[0].value) == "self." + field, "R-C01-5d", "%s.%s returns the run-time field %s" % (cls, prop, field), loc(f), found=unparse(rets[0].value) if rets else None)
+        chk.expect(len(rets) == 1 and dotted(resolve_local(f, rets[0].value)) == "self." + field, "R-C01-5d", "%s.%s returns the run-time field %s" % (cls, prop, field), loc(f), found=unparse(rets[0].value) if rets else None)
     svf = repo.func(HYD, "save_results")
     chk.fn(svf)
-    ex2 = SymExec()
+    ex2 = SplitExec()
     o2 = ex2.run(svf)
     appends = {}
     for o in o2:
+        lv = loop_vars(o)
         for e in o.events:
             if e[0] == "call" and ".append(" in e[1]:
-                m = re.match(r"^(node_res|link_res)\['(\w+)'\]\[name\]\.append\((.*)\)$", e[1])
-                if m:
-                    ctx = e[4][-1] if len(e) > 4 and e[4] else ""
-                    appends.setdefault((ctx, m.group(2)), set()).add(m.group(3))
+                m = re.match(r"^(node_res|link_res)\['(\w+)'\]\[(\w+)\]\.append\((.*)\)$", e[1])
+                ctx = e[4][-1] if len(e) > 4 and e[4] else ""
+                if m and len(lv.get(ctx, ())) == 2 and m.group(3) == lv[ctx][0]:
+                    # the reported value with the loop's element variable written `$o`
+                    appends.setdefault((ctx, m.group(2)), set()).add(re.sub(r"(?<![\w.])%s\b" % re.escape(lv[ctx][1]), "$o", m.group(4)))
     for ctx in ("wn.junctions()", "wn.tanks()", "wn.reservoirs()"):
-        chk.expect(appends.get((ctx, "demand")) == {"node.demand"}, "R-C01-5d", "save_results reports node.demand under 'demand' for %s" % ctx, loc(svf), found=appends.get((ctx, "demand")))
+        chk.expect(appends.get((ctx, "demand")) == {"$o.demand"}, "R-C01-5d", "save_results reports node.demand under 'demand' for %s" % ctx, loc(svf), found=appends.get((ctx, "demand")))
     for ctx in ("wn.junctions()", "wn.tanks()"):
-        chk.expect(appends.get((ctx, "leak_demand")) == {"node.leak_demand"}, "R-C01-5d", "save_results reports node.leak_demand under 'leak_demand' for %s" % ctx, loc(svf), found=appends.get((ctx, "leak_demand")))
+        chk.expect(appends.get((ctx, "leak_demand")) == {"$o.leak_demand"}, "R-C01-5d", "save_results reports node.leak_demand under 'leak_demand' for %s" % ctx, loc(svf), found=appends.get((ctx, "leak_demand")))
     for ctx in ("wn.pipes()", "wn.head_pumps()", "wn.power_pumps()", "wn.valves()"):
-        chk.expect(appends.get((ctx, "flowrate")) == {"link.flow"}, "R-C01-5d", "save_results reports link.flow under 'flowrate' for %s" % ctx, loc(svf), found=appends.get((ctx, "flowrate")))
+        chk.expect(appends.get((ctx, "flowrate")) == {"$o.flow"}, "R-C01-5d", "save_results reports link.flow under 'flowrate' for %s" % ctx, loc(svf), found=appends.get((ctx, "flowrate")))
 
     # ---------------------------------------------------------------- R-C01-3 convention product
     sig_hl = set()
@@ -261,39 +967,33 @@ def run(repo, chk):
                "tank/reservoir net inflow uses the same INLET-positive convention as the junction rows", loc(sfn), found="tank %s, balance %s" % (sorted(sig_tank), sorted(map(int, mb))))
 
     # ---------------------------------------------------------------- R-C01-5a requested demand formulas
-    dat = repo.func(ELEM, "Demands.at")
+    # Demands.at is evaluated on a fixture list with symbolic entry values: the result is the exact formula, whatever the loop structure
+    dat, rows = demands_at_table(repo)
     chk.fn(dat)
-    exd = SymExec()
-    outs = exd.run(dat)
-    found_plain = False
-    for o in outs:
-        if o.ret is None:
-            continue
-        cat = [v for t, v in o.conds if t == "category"]
-        r = sp.expand(exd.S(o.ret))
-        sums = [s for s in r.free_symbols if s.name.startswith("SUM{")]
-        if cat and not cat[0]:
-            found_plain = True
-            okd = len(sums) == 1 and r == sums[0] and re.match(r"^SUM\{(dem\.at\(time\)\*multiplier|multiplier\*dem\.at\(time\)) : dem in self\._list\}$", sums[0].name) is not None
-            chk.expect(okd, "R-C01-5a", "Demands.at = sum over entries of entry.at(time) * multiplier", loc(dat), found=str(r))
-        elif cat and cat[0]:
-            flt = [v for t, v in o.conds if "dem.category == category" in t]
-            if flt and flt[0]:
-                okd = len(sums) == 1 and r == sums[0] and "dem.at(time)" in sums[0].name and "multiplier" in sums[0].name
-                chk.expect(okd, "R-C01-5a", "Demands.at(category) sums the matching entries times the multiplier", loc(dat), found=str(r))
-    chk.expect(found_plain, "R-C01-5a", "Demands.at: un-filtered path located", loc(dat))
+    for label, what, okd, want_, got in rows:
+        construct = {"all": "Demands.at = sum over entries of entry.at(time) * multiplier",
+                     "category": "Demands.at(category) sums the matching entries times the multiplier",
+                     "default-multiplier": "Demands.at: the default multiplier is 1"}[label]
+        chk.expect(okd, "R-C01-5a", construct, loc(dat), "fixture: six entries with categories None, 'ind', '', None, 'ind', 'res'; entry i has the value d_i(t); " + what,
+                   expected=want_, found=got)
     tat = repo.func(ELEM, "TimeSeries.at")
     chk.fn(tat)
-    ext = SymExec()
+    ext = SplitExec()
+    seent = set()
     for o in ext.run(tat):
-        pat = [v for t, v in o.conds if t == "self.pattern"]
-        if not pat:
+        pat = facts(o.conds).get("self.pattern")
+        if pat is None or o.raised:
             continue
-        r = ext.S(o.ret)
-        if pat[0]:
-            chk.expect(is_zero(r - ext.sym("self._base") * ext.sym("self.pattern.at(time)")), "R-C01-5a", "TimeSeries.at = base * pattern.at(time)", loc(tat), found=str(r))
+        try:
+            r = ext.S(o.ret)
+        except ExtractError:
+            r = None
+        if pat:
+            chk.expect(r is not None and is_zero(r - ext.sym("self._base") * ext.sym("self.pattern.at(time)")), "R-C01-5a", "TimeSeries.at = base * pattern.at(time)", loc(tat), found=str(r))
         else:
-            chk.expect(r == ext.sym("self._base"), "R-C01-5a", "TimeSeries.at without pattern = base", loc(tat), found=str(r))
+            chk.expect(r is not None and r == ext.sym("self._base"), "R-C01-5a", "TimeSeries.at without pattern = base", loc(tat), found=str(r))
+        seent.add(bool(pat))
+    chk.expect(seent == {True, False}, "R-C01-5a", "TimeSeries.at: the paths with and without a pattern located", loc(tat), found=sorted(seent))
     pat_fn = repo.func(ELEM, "Pattern.at")
     chk.fn(pat_fn)
     exp_ = SymExec(assume=lambda t: {"integer": True, "nonnegative": True} if t.startswith("len(") else {"real": True})
@@ -335,23 +1035,31 @@ def run(repo, chk):
     chk.expect({"nowrap-outside", "nowrap-inside"} <= seenp, "R-C01-5a", "Pattern.at without wrap: 0.0 outside the pattern's steps, the step's multiplier inside", loc(pat_fn), found=sorted(seenp))
 
     # ---------------------------------------------------------------- R-C01-5b demand clock at every call site in wntr.sim
-    nsites = 0
+    def demand_call(txt):
+        """receiver text if txt is `<receiver>.demand_timeseries_list.at(...)` itself (not a call that merely has one among its arguments)"""
+        head = txt.split(".demand_timeseries_list.at(", 1)
+        if len(head) == 2 and head[0].count("(") == head[0].count(")") and head[0].count("[") == head[0].count("]") and " " not in head[0]:
+            return head[0]
+        return None
+    site_fns = set()
     for rel in repo.modules("wntr/sim"):
         t = repo.tree(rel)
         for fn in [n for n in ast.walk(t) if isinstance(n, ast.FunctionDef)]:
-            sites = [c for c in calls(fn, attr="at") if isinstance(c.func.value, ast.Attribute) and c.func.value.attr == "demand_timeseries_list"]
+            if not any(isinstance(n, ast.Attribute) and n.attr == "demand_timeseries_list" for n in walk(fn)) or not calls(fn, attr="at"):
+                continue
+            sites = [c for c in calls(fn, attr="at") if isinstance(resolve_local(fn, c.func.value), ast.Attribute) and resolve_local(fn, c.func.value).attr == "demand_timeseries_list"]
             if not sites:
                 continue
             fn._rel = rel
             fn._qual = fn.name
             chk.fn(fn)
-            exs = SymExec(test_hook=B.std_test_hook)
-            seen_lines = set()
-            for o in exs.run(fn) + SymExec(test_hook=lambda t_, n_, s_: (True if t_.startswith("hasattr(") else B.std_test_hook(t_, n_, s_))).run(fn):
+            exs = SplitExec(test_hook=B.std_test_hook)
+            seen_sites = set()
+            for o in exs.run(fn) + SplitExec(test_hook=lambda t_, n_, s_: (True if t_.startswith("hasattr(") else B.std_test_hook(t_, n_, s_))).run(fn):
                 for e in o.events:
-                    if e[0] == "call" and ".demand_timeseries_list.at(" in e[1] and e[3] not in seen_lines:
-                        seen_lines.add(e[3])
-                        nsites += 1
+                    if e[0] == "call" and demand_call(e[1]) is not None and (e[3], e[1]) not in seen_sites:
+                        seen_sites.add((e[3], e[1]))
+                        site_fns.add((rel, fn.name))
                         name, args, kwargs = e[2]
                         targ = args[0] if args else kwargs.get("time")
                         try:
@@ -366,9 +1074,31 @@ def run(repo, chk):
                                    "%s:%s passes the global demand multiplier" % (rel, fn.name), "%s:%d" % (rel, e[3]), found=mult)
                         cat = kwargs.get("category", args[1] if len(args) > 1 else None)
                         chk.expect(cat is None, "R-C01-5b", "%s:%s sums all demand categories" % (rel, fn.name), "%s:%d" % (rel, e[3]), found=cat)
-            if len(seen_lines) < len(sites):
-                chk.error("R-C01-5b: %d of %d demand_timeseries_list.at call sites in %s:%s were not reached by the extractor" % (len(sites) - len(seen_lines), len(sites), rel, fn.name))
-    chk.floor("R-C01-5b", 9)
+            missed = {c.lineno for c in sites} - {ln for ln, _ in seen_sites}
+            if missed:
+                chk.error("R-C01-5b: demand_timeseries_list.at call sites at lines %s of %s:%s were not reached by the extractor" % (sorted(missed), rel, fn.name))
+    # the value the refresh stores for a junction is that junction's own requested demand (one of the call sites checked above), on every path
+    edp = repo.func(PAR, "expected_demand_param")
+    exq = SplitExec()
+    nstore = 0
+    for o in exq.run(edp):
+        lv = loop_vars(o)
+        param_arg = {e[1]: e[2][1][0] for e in o.events if e[0] == "call" and (e[2][0] or "").split(".")[-1] == "Param" and len(e[2][1]) == 1}
+        for e in o.events:
+            if e[0] != "store" or not e[1].startswith("m.expected_demand["):
+                continue
+            ctx = e[4][-1] if len(e) > 4 and e[4] else ""
+            m_ = re.match(r"^m\.expected_demand\[(\w+)\](\.value)?$", e[1])
+            v = e[2]
+            if m_ and not m_.group(2) and isinstance(v, Opaque) and v.text in param_arg:
+                v = param_arg[v.text]           # m.expected_demand[k] = aml.Param(v)
+            okq = bool(m_) and len(lv.get(ctx, ())) == 2 and ctx == "wn.junctions()" and m_.group(1) == lv[ctx][0] and isinstance(v, Opaque) and demand_call(v.text) == lv[ctx][1]
+            chk.expect(okq, "R-C01-5b", "expected_demand_param stores, under the junction's name, that junction's demand_timeseries_list.at(...)", loc(edp),
+                       "the requested-demand parameter of junction k is k's own demand list evaluated at the demand clock", found="%s = %s [loop %s]" % (e[1], val_text(e[2]), ctx))
+            nstore += 1
+    chk.expect(nstore >= 2 and (PAR, "expected_demand_param") in site_fns, "R-C01-5b", "expected_demand_param: the stores of the requested demand located (creation and refresh)", loc(edp), found=nstore)
+    chk.expect((VAR, "demand_var") in site_fns, "R-C01-5b", "demand_var initialises the demand variable from the requested demand", loc(VAR), found=sorted(site_fns))
+    chk.floor("R-C01-5b", 8)
 
     # ---------------------------------------------------------------- R-C01-5c refresh before every solve
     rs = repo.func(CORE, "WNTRSimulator.run_sim")
@@ -388,29 +1118,40 @@ def run(repo, chk):
                    "the demand / source-head parameters must be re-evaluated at the step's final time before each solve",
                    found="path avoiding it: " + g.path_text(w) if w else "no call of %s in run_sim" % pname)
     # R-C01-6: a connected junction receives its demand: it must not be declared isolated.  The encoding of the connectivity graph is decided by
-    # C09; the clauses that bear on the DD demand sentence are re-used here (status -> entry truth table, both directions, parallel links)
-    from .c09 import pair_rules, status_guards, status_encoding_table
+    # C09; the clauses that bear on the DD demand sentence are decided here from what the function hands to the sparse-matrix constructor
+    # (status -> entry on every path, both directions) and from the collection of parallel links
     ig_ = repo.func(CORE, "WNTRSimulator._initialize_internal_graph")
     chk.fn(ig_)
-    pair_rules(ig_, chk, "R-C01-6")
-    is_vals_ = lambda n: isinstance(n, ast.Call) and isinstance(n.func, ast.Attribute) and n.func.attr == "append" and unparse(n.func.value) == "vals"
-    enc_ = status_guards(ig_, is_vals_)
-    if not enc_:
-        raise AnchorError("_initialize_internal_graph: status encoding not found")
-    wc_, wo_, other_ = status_encoding_table(enc_[0].test)
-    chk.expect(len(wc_) == 1 and len(wo_) == 1 and wc_ != wo_, "R-C01-6", "a link that is not closed always counts as a connection (the demand of a connected junction is never zeroed)", loc(ig_, enc_[0]),
-               found=unparse(enc_[0].test))
-    # R-C01-5e: the refresh is unconditional per element: on every way round the element loop of expected_demand_param / source_head_param
-    # the parameter of that element is (re)assigned -- no `continue` or guard may leave a stale value from an earlier time
-    for pname, dictname, nloops in (("expected_demand_param", "expected_demand", 2), ("source_head_param", "source_head", 4)):
-        pf = repo.func("wntr/sim/models/param.py", pname)
+    pair_rule(ig_, chk, "R-C01-6")
+    ents = graph_entries(repo, ig_)
+    if not ents:
+        raise AnchorError("_initialize_internal_graph: status encoding not found (no sparse matrix built from (data, (rows, cols)))")
+    bad_ = []
+    seen_c = set()
+    for closed, data, rc, label in ents:
+        symm = len(rc) == 2 and rc[0] == (rc[1][1], rc[1][0]) and rc[0][0] != rc[0][1] and len(data) == 2
+        want_d = None if closed is None else ([0, 0] if closed else [1, 1])
+        if not symm or data != want_d:
+            bad_.append("closed=%s data=%s at %s on path %s" % (closed, data, rc, label[-120:]))
+        seen_c.add(closed)
+    chk.expect(not bad_ and seen_c == {True, False}, "R-C01-6", "a link that is not closed always counts as a connection (the demand of a connected junction is never zeroed)", loc(ig_),
+               "the graph entry of a link, in both directions, is 0 exactly when link.status is Closed and 1 otherwise, whatever else is true of the link",
+               expected="closed -> [0, 0] / not closed -> [1, 1] at (a, b) and (b, a)", found="; ".join(bad_[:3]) or sorted(map(str, seen_c)))
+    # R-C01-5e: the refresh is unconditional per element: on every way round an element loop of expected_demand_param / source_head_param
+    # the parameter of that element is (re)assigned -- no `continue` or guard may leave a stale value from an earlier time -- and every call
+    # of the function (first call: creation, later calls: refresh) runs through such a loop for each kind of element
+    for pname, dictname, kinds in (("expected_demand_param", "expected_demand", ("junction",)), ("source_head_param", "source_head", ("tank", "reservoir"))):
+        pf = repo.func(PAR, pname)
         chk.fn(pf)
         pg = CFG(pf)
-        nl = 0
+        good = {k: [] for k in kinds}
         for lnode, lhead in pg.loop_heads.items():
             if not isinstance(lnode, ast.For):
                 continue
-            nl += 1
+            it = unparse(resolve_local(pf, lnode.iter))
+            kind = [k for k in kinds if re.search(r"\bwn\.(%ss\(\)|%s_name_list\b)" % (k, k), it)]
+            if len(kind) != 1:
+                continue
             body_nodes = set()
             for st in lnode.body:
                 for x in ast.walk(st):
@@ -422,14 +1163,19 @@ def run(repo, chk):
             for f0 in firsts:
                 w = w or pg.can_reach_avoiding(f0, {lhead}, stores)
             chk.expect(bool(stores) and w is None, "R-C01-5e", "%s: every pass of the loop `for ... in %s` assigns m.%s[...] (no element keeps a stale value)" % (
-                pname, unparse(lnode.iter), dictname), loc(pf, lnode),
+                pname, it, dictname), loc(pf, lnode),
                        "the requested demand / source head must be re-evaluated for every element at every step",
                        found=("path skipping the assignment: " + pg.path_text(w)) if w else "no assignment of m.%s[...] in the loop" % dictname)
-        if nl < nloops:
-            chk.error("R-C01-5e: %s has %d element loops, expected at least %d" % (pname, nl, nloops))
+            if stores and w is None:
+                good[kind[0]].append(lhead)
+        for k in kinds:
+            okp, w = pg.must_pass(pg.entry, {pg.exit}, good[k])
+            chk.expect(bool(good[k]) and okp, "R-C01-5e", "%s: every call runs through a loop over all %ss that assigns m.%s[...]" % (pname, k, dictname), loc(pf),
+                       "whether the parameters are being created or refreshed, every %s gets its value for the current time" % k,
+                       found=("path without such a loop: " + pg.path_text(w)) if w else "no loop over wn.%ss() that always assigns" % k)
     # the refresh itself writes .value of every junction's parameter from the same call (checked in 5b) and create_hydraulic_model builds it
     chm = repo.func(HYD, "create_hydraulic_model")
-    chk.expect(bool(calls(chm, name="param.expected_demand_param")), "R-C01-5c", "create_hydraulic_model builds the expected_demand parameter", loc(chm))
+    chk.expect(any(last_attr(c) == "expected_demand_param" for c in calls(chm)), "R-C01-5c", "create_hydraulic_model builds the expected_demand parameter", loc(chm))
 
 
 WITNESSES = [
